@@ -32,6 +32,9 @@ RULE = ('case = scenario (table of 0..8 rows over int/float/str/None/bytes '
         'fresh connection must see exactly the model contents; caller-side '
         'commit/rollback and a follow-up load are checked too. Non-trivial: '
         'n >= 1. Distinct: by digest of the scenario.')
+STATES = ('load function x handle kind x commit flag x prefix x fault kind '
+          '(none / raise at header / at a data row / at exhaustion / '
+          'malformed row)')
 COMPONENTS = {
     'real': ['petl todb/appenddb/fromdb (DB-API paths)', 'sqlite3 with file '
              'databases in a private directory, default (transactional) '
@@ -320,8 +323,14 @@ def run_case(case):
     probes = {'loads-under-fault-plans': nruns, 'prefix:' + case['prefix']: 1}
     for op, handle, commit in case['combos']:
         probes['combo:%s/%s/commit=%s' % (op, handle, commit)] = 1
+    states = []
+    for op, handle, commit in case['combos']:
+        for fk in ('none', 'raise@header', 'raise@exhaustion') + (
+                ('raise@row', 'badrow') if n >= 1 else ()):
+            states.append('%s/%s/%s/%s/%s' % (op, handle, commit,
+                                              case['prefix'], fk))
     return outcome('ok', digest=log.hexdigest(), steps=nruns, probes=probes,
-                   fired=fired, nontrivial=n >= 1)
+                   fired=fired, nontrivial=n >= 1, states=states)
 
 
 def _where(msg):
